@@ -210,6 +210,11 @@ def insxr_instance(K, D, T, average_channels, variant='value', return_dict=False
             a1, a2 = [cells(x) for x in get3(o1)], [cells(x) for x in get3(o2)]
         names = ('sdr', 'sir', 'snr')
         if variant == 'average':
+            want1, want2 = ((K,), ()) if average_channels else ((K, D), (D,))
+            oks = all(shape_of(get3(o1)[q]) == want1 for q in range(3)) and all(a2[q].shape == want2 for q in range(3))
+            yield 'averaged-result-drops-the-source-axis', sp._f(oks)
+            if not oks:
+                return
             for q in range(3):
                 if average_channels:
                     yield 'average-sources[%s]' % names[q], sp.eq(a2[q][()], sp.sum(a1[q][(k,)] for k in range(K)) / K)
@@ -334,6 +339,10 @@ def outsxr_instance(Ks, Kt, T, variant='value', return_dict=False, perm=None):
             a1, a2 = [cells(x) for x in get3(o1)], [cells(x) for x in get3(o2)]
         names = ('sdr', 'sir', 'snr')
         if variant == 'average':
+            oks = all(a1[q].shape == (Ks,) for q in range(3)) and all(a2[q].shape == () for q in range(3))
+            yield 'averaged-result-drops-the-source-axis', sp._f(oks)
+            if not oks:
+                return
             for q in range(3):
                 yield 'average-sources[%s]' % names[q], sp.eq(a2[q][()], sp.sum(a1[q][(k,)] for k in range(Ks)) / Ks)
             return
